@@ -999,28 +999,36 @@ func (r *Runtime) stringproto_toUpperCase(call FunctionCall) Value {
 	return s.toUpper()
 }
 
+// trimString removes WhiteSpace and LineTerminator code units (all of them are in the BMP) from the
+// chosen ends. It works on code units so that unpaired surrogates are preserved.
+func trimString(s String, left, right bool) String {
+	start, end := 0, s.Length()
+	if left {
+		for start < end && strings.ContainsRune(parser.WhitespaceChars, rune(s.CharAt(start))) {
+			start++
+		}
+	}
+	if right {
+		for end > start && strings.ContainsRune(parser.WhitespaceChars, rune(s.CharAt(end-1))) {
+			end--
+		}
+	}
+	return s.Substring(start, end)
+}
+
 func (r *Runtime) stringproto_trim(call FunctionCall) Value {
 	r.checkObjectCoercible(call.This)
-	s := call.This.toString()
-
-	// TODO handle invalid UTF-16
-	return newStringValue(strings.Trim(s.String(), parser.WhitespaceChars))
+	return trimString(call.This.toString(), true, true)
 }
 
 func (r *Runtime) stringproto_trimEnd(call FunctionCall) Value {
 	r.checkObjectCoercible(call.This)
-	s := call.This.toString()
-
-	// TODO handle invalid UTF-16
-	return newStringValue(strings.TrimRight(s.String(), parser.WhitespaceChars))
+	return trimString(call.This.toString(), false, true)
 }
 
 func (r *Runtime) stringproto_trimStart(call FunctionCall) Value {
 	r.checkObjectCoercible(call.This)
-	s := call.This.toString()
-
-	// TODO handle invalid UTF-16
-	return newStringValue(strings.TrimLeft(s.String(), parser.WhitespaceChars))
+	return trimString(call.This.toString(), true, false)
 }
 
 func (r *Runtime) stringproto_substr(call FunctionCall) Value {
